@@ -67,19 +67,25 @@ def name_of(naming):
 def snapshot(kripke):
     """Deep, identity-aware snapshot of a library Kripke through its public API."""
     states = list(kripke.states())
-    return {
+    # identities are compared only where the accessor hands out the SAME object on every call
+    # (an implementation returning defensive copies has no identity to preserve)
+    stable_l = all(kripke.labels(s) is kripke.labels(s) for s in states)
+    stable_n = all(kripke.next(s) is kripke.next(s) for s in states)
+    stable_f = kripke.labelling_function() is kripke.labelling_function()
+    snap = {
         'states': states,
         'transitions': frozenset(kripke.transitions()),
         'labels': dict((s, frozenset(kripke.labels(s))) for s in states),
-        'label_ids': dict((s, id(kripke.labels(s))) for s in states),
+        'label_ids': dict((s, id(kripke.labels(s))) for s in states) if stable_l else None,
         'S0': frozenset(kripke.S0),
-        'next_ids': dict((s, id(kripke.next(s))) for s in states),
+        'next_ids': dict((s, id(kripke.next(s))) for s in states) if stable_n else None,
         'S0_id': id(kripke.S0),
-        'labelling_function_id': id(kripke.labelling_function()),
+        'labelling_function_id': id(kripke.labelling_function()) if stable_f else None,
         'labelling_function_keys': list(kripke.labelling_function().keys()),
         'all_labels': frozenset(kripke.labels()),
         'state_order': [repr(s) for s in states],
     }
+    return snap
 
 
 def snapshot_diff(a, b):
